@@ -547,11 +547,12 @@ def digest_of(procs):
         panicked = b"panicked at" in p["err"] or b"panicked at" in p["out"] or "--profile" in p["args"]
         for e in p["events"]:
             if panicked and e["path"] in ("<stderr>", "<stdout>") and e["call"] == "write":
-                # a panic message carries the OS thread id, whose digit count changes the write sizes
-                h.update(("%s,%s,%d,%s;" % (e["call"], e["path"], e["errno"], e["rule"] != "-")).encode())
+                # a panic message carries the OS thread id, the profile report the memory usage as the OS accounts it: the
+                # digit count changes the write sizes and, under a short-write rule, the NUMBER of writes (and with it the
+                # sequence numbers of everything after them) - the stream writes of such a process are not compared
                 continue
             path = _THREAD_ID[2].sub(b"<scratch>", e["path"].encode("utf-8", "surrogateescape")).decode("utf-8", "surrogateescape")
-            h.update(("%d,%s,%s,%d,%d,%d,%s;" % (e["seq"], e["call"], path, e["req"], e["res"], e["errno"], e["rule"])).encode("utf-8", "surrogateescape"))
+            h.update(("%d,%s,%s,%d,%d,%d,%s;" % (0 if panicked else e["seq"], e["call"], path, e["req"], e["res"], e["errno"], e["rule"])).encode("utf-8", "surrogateescape"))
     return h.hexdigest()[:20]
 
 
